@@ -117,6 +117,12 @@ func (ex *Exec) callModKeys(fr *frame, c *ssa.CallCommon, keys map[string]bool, 
 		keys["*"] = true
 		return
 	}
+	// closures among the arguments may be run by the callee
+	for _, a := range c.Args {
+		if mc := closureOfValue(a); mc != nil {
+			ex.closureKeys(fr, mc, keys, seen)
+		}
+	}
 	key := ssaFuncKey(callee)
 	if fc, ok := ex.db.Funcs[key]; ok {
 		ex.contractModKeys(fc, callee, callee.Signature, keys)
@@ -326,4 +332,62 @@ func (ex *Exec) addrKeys(fr *frame, addr ssa.Value) []string {
 	k := "C$" + elemKey(t)
 	u.keySort(k, arr1(sortOf(t)))
 	return []string{k}
+}
+
+// closureOfValue: the MakeClosure a value is (a conversion or boxing of), if any.
+func closureOfValue(v ssa.Value) *ssa.MakeClosure {
+	for i := 0; i < 6; i++ {
+		switch x := v.(type) {
+		case *ssa.MakeClosure:
+			return x
+		case *ssa.ChangeType:
+			v = x.X
+		case *ssa.MakeInterface:
+			v = x.X
+		case *ssa.Convert:
+			v = x.X
+		default:
+			return nil
+		}
+	}
+	return nil
+}
+
+// closureKeys: the write set of a closure, with its free variables resolved to the creating frame's cells.
+func (ex *Exec) closureKeys(fr *frame, mc *ssa.MakeClosure, keys map[string]bool, seen map[*ssa.Function]bool) {
+	fn := mc.Fn.(*ssa.Function)
+	tmp := map[string]bool{}
+	ex.funcModKeys(fn, tmp, map[*ssa.Function]bool{})
+	for k := range tmp {
+		if !strings.HasPrefix(k, "*freevar:") {
+			keys[k] = true
+			continue
+		}
+		name := strings.TrimPrefix(k, "*freevar:")
+		resolved := false
+		for i, fv := range fn.FreeVars {
+			if fv.Name() != name || i >= len(mc.Bindings) {
+				continue
+			}
+			switch b := mc.Bindings[i].(type) {
+			case *ssa.Alloc:
+				if fr != nil {
+					if key, ok := fr.allocKey[b]; ok {
+						keys[key] = true
+						resolved = true
+					}
+				}
+			case *ssa.FreeVar:
+				if fr != nil {
+					if v, ok := fr.regs[b]; ok && v.Loc != nil && v.Loc.Kind == LLocal {
+						keys[v.Loc.Key] = true
+						resolved = true
+					}
+				}
+			}
+		}
+		if !resolved {
+			keys["*"] = true
+		}
+	}
 }
